@@ -228,6 +228,7 @@ func runC15(r *Run) {
 // ---------------------------------------------------------------- C16
 
 type seqSubscriber struct {
+	genAtSubscribe int // keys generated for the prefix before this subscription was established
 	prefix string
 	mu     sync.Mutex
 	last   string
@@ -307,10 +308,9 @@ func runC16(r *Run) {
 	wl.seqPrefixes = prefixes
 	neighbours := append(append([]string{}, pool...), "z", "t", "/t/b", "/t/a", "seq/b", "u/v", "r/s", "/r")
 	r.Knobs["prefixes"] = strings.Join(prefixes, ",")
-	subs := map[string]*seqSubscriber{}
+	subs := map[string][]*seqSubscriber{} // several concurrent subscribers per prefix
 	lastGenerated := map[string]string{} // prefix -> latest generated key (per the committed log)
 	genCount := map[string]int{}
-	genAtSubscribe := map[string]int{}
 	ok := wl.w.RunScript(wl.c.ctl, 4*time.Hour, func() {
 		if err := wl.c.elect(); err != nil {
 			wl.fail("elect-error", "%v", err)
@@ -323,22 +323,27 @@ func runC16(r *Run) {
 			gi := NewRng(r.Seed, "c16op", i)
 			k := gi.Intn(100)
 			switch {
-			case k < 12: // subscribe
+			case k < 12: // subscribe (up to three concurrent subscribers per prefix)
 				p := prefixes[gi.Intn(3)]
-				if subs[p] == nil {
-					subs[p] = wl.subscribeSeq(p)
+				if len(subs[p]) < 3 {
+					sb := wl.subscribeSeq(p)
+					subs[p] = append(subs[p], sb)
 					wl.prog = append(wl.prog, "subscribe "+p)
 					r.Count("subscriptions", 1)
 					time.Sleep(100 * time.Millisecond) // let the subscription get established
-					genAtSubscribe[p] = genCount[p]
+					sb.genAtSubscribe = genCount[p]
+					if len(subs[p]) > 1 {
+						r.Count("concurrent_subscribers_same_prefix", 1)
+					}
 				}
-			case k < 18: // unsubscribe
+			case k < 18: // one subscriber (not necessarily the latest) goes away
 				p := prefixes[gi.Intn(3)]
-				if s := subs[p]; s != nil {
-					s.cancel()
-					<-s.done
-					delete(subs, p)
-					wl.prog = append(wl.prog, "unsubscribe "+p)
+				if l := subs[p]; len(l) > 0 {
+					j := gi.Intn(len(l))
+					l[j].cancel()
+					<-l[j].done
+					subs[p] = append(append([]*seqSubscriber{}, l[:j]...), l[j+1:]...)
+					wl.prog = append(wl.prog, fmt.Sprintf("unsubscribe %s #%d", p, j))
 				}
 			case k < 30: // delete the current maximum of a prefix
 				p := prefixes[gi.Intn(3)]
@@ -400,22 +405,26 @@ func runC16(r *Run) {
 		}
 		// every subscriber that stayed connected eventually observes the latest generated key
 		time.Sleep(30 * time.Second)
-		for p, s := range subs {
-			s.mu.Lock()
-			last, n := s.last, s.n
-			s.mu.Unlock()
-			if s.err != nil {
-				wl.fail("subscriber-error", "sequence subscriber on %q failed: %v", p, s.err)
-				continue
+		for p, l := range subs {
+			for j, s := range l {
+				s.mu.Lock()
+				last, n := s.last, s.n
+				s.mu.Unlock()
+				if s.err != nil {
+					wl.fail("subscriber-error", "sequence subscriber #%d on %q failed: %v", j, p, s.err)
+					continue
+				}
+				// only keys generated after the subscription was established are owed to the subscriber
+				if want := lastGenerated[p]; genCount[p] > s.genAtSubscribe && last != want {
+					wl.fail("subscriber-stale", "subscriber #%d of %d on %q last saw %q after 30s, but %q was generated after it subscribed (%d updates received)", j, len(l), p, last, want, n)
+				}
+				r.Count("subscribers_checked", 1)
+				s.cancel()
 			}
-			// only keys generated after the subscription was established are owed to the subscriber
-			if want := lastGenerated[p]; genCount[p] > genAtSubscribe[p] && last != want {
-				wl.fail("subscriber-stale", "subscriber on %q last saw %q after 30s, but %q was generated after it subscribed (%d updates received)", p, last, want, n)
-			}
-			r.Count("subscribers_checked", 1)
-			s.cancel()
 		}
-		wl.checkDump("final")
+		if !r.Failed() {
+			wl.checkDump("final")
+		}
 	})
 	if !ok && !r.Failed() {
 		r.Fail("stuck", "script did not finish: %s", lastOf(wl.prog))
